@@ -18,6 +18,7 @@ import (
 	"github.com/cloudflare/pat-go/tokens/batched"
 	"github.com/cloudflare/pat-go/tokens/type1"
 	"github.com/cloudflare/pat-go/tokens/type2"
+	"github.com/cloudflare/pat-go/tokens/type5"
 	"github.com/cloudflare/pat-go/util"
 )
 
@@ -244,6 +245,229 @@ func runC11(c *Ctx) {
 			toks = append(toks, tokField(o1))
 		}
 		c.Direct(allEq(toks), "type-5 tokens depend on the blinds", map[string]any{"tokens": toks})
+	}
+	// ---- purity across histories and schedules ----
+	for k := 0; k < c.Pick(6, 80); k++ {
+		nj := 3 + k%6
+		o := c.Run("c11.hist", strconv.Itoa(k), strconv.Itoa(nj))
+		c.Count("history")
+		c.Direct(o == "same", "issuance with fixed blinds is not a pure function of its arguments: "+o, map[string]any{"history": k, "jobs": nj})
+	}
+	for k := 0; k < c.Pick(3, 40); k++ {
+		nj := c.Pick(48, 96)
+		o := c.Run("c11.par", strconv.Itoa(k), strconv.Itoa(nj))
+		c.Count("concurrent")
+		c.Direct(o == "same", "issuance with fixed blinds is not a pure function of its arguments: "+o, map[string]any{"round": k, "jobs": nj})
+	}
+}
+
+// c11Job is one issuance with caller-supplied blinds; flow() runs it alone, and the history and
+// concurrent variants run the same creations and finalizations in other orders.
+type c11Job struct {
+	ty        int
+	challenge []byte
+	nonces    [][]byte
+	blinds    [][]byte
+	salt      []byte
+}
+
+type c11World struct {
+	i1  *type1.BasicPrivateIssuer
+	i2  *type2.BasicPublicIssuer
+	i5  *type5.BatchedPrivateIssuer
+	pk1 []byte
+	pk5 []byte
+}
+
+type c11Pending struct {
+	req string
+	fin func() (string, error)
+}
+
+// create builds the request state (client side only) and returns its encoding and a closure that
+// evaluates and finalizes later.
+func (w *c11World) create(j c11Job) (c11Pending, error) {
+	switch j.ty {
+	case 1:
+		pk := new(oprf.PublicKey)
+		must(pk.UnmarshalBinary(oprf.SuiteP384, w.pk1))
+		st, err := type1.NewBasicPrivateClient().CreateTokenRequestWithBlind(j.challenge, j.nonces[0], w.i1.TokenKeyID(), pk, j.blinds[0])
+		if err != nil {
+			return c11Pending{}, err
+		}
+		return c11Pending{hxv(st.Request().Marshal()), func() (string, error) {
+			resp, err := w.i1.Evaluate(st.Request())
+			if err != nil {
+				return "", err
+			}
+			t, err := st.FinalizeToken(resp)
+			return hxv(t.Marshal()), err
+		}}, nil
+	case 2:
+		st, err := type2.NewBasicPublicClient().CreateTokenRequestWithBlind(j.challenge, j.nonces[0], w.i2.TokenKeyID(), w.i2.TokenKey(), j.blinds[0], j.salt)
+		if err != nil {
+			return c11Pending{}, err
+		}
+		return c11Pending{hxv(st.Request().Marshal()), func() (string, error) {
+			resp, err := w.i2.Evaluate(st.Request())
+			if err != nil {
+				return "", err
+			}
+			t, err := st.FinalizeToken(resp)
+			return hxv(t.Marshal()), err
+		}}, nil
+	default:
+		pk := new(oprf.PublicKey)
+		must(pk.UnmarshalBinary(oprf.SuiteRistretto255, w.pk5))
+		st, err := type5.NewBatchedPrivateClient().CreateTokenRequestWithBlinds(j.challenge, j.nonces, w.i5.TokenKeyID(), pk, j.blinds)
+		if err != nil {
+			return c11Pending{}, err
+		}
+		return c11Pending{hxv(st.Request().Marshal()), func() (string, error) {
+			resp, err := w.i5.Evaluate(st.Request())
+			if err != nil {
+				return "", err
+			}
+			ts, err := st.FinalizeTokens(resp)
+			out := ""
+			for _, t := range ts {
+				out += hxv(t.Marshal()) + ","
+			}
+			return out, err
+		}}, nil
+	}
+}
+
+func (w *c11World) alone(j c11Job) string {
+	p, err := w.create(j)
+	if err != nil {
+		return "err-create"
+	}
+	t, err := p.fin()
+	if err != nil {
+		return "err-finalize " + p.req
+	}
+	return p.req + " " + t
+}
+
+func newC11World(tag string) *c11World {
+	w := &c11World{}
+	w.i1 = type1.NewBasicPrivateIssuer(oprfKey(oprf.SuiteP384, []byte("c11w1"+tag)))
+	w.i2 = type2.NewBasicPublicIssuer(rsaKey(1))
+	w.i5 = type5.NewBatchedPrivateIssuer(oprfKey(oprf.SuiteRistretto255, []byte("c11w5"+tag)))
+	w.pk1, _ = oprfKey(oprf.SuiteP384, []byte("c11w1"+tag)).Public().MarshalBinary()
+	w.pk5, _ = oprfKey(oprf.SuiteRistretto255, []byte("c11w5"+tag)).Public().MarshalBinary()
+	return w
+}
+
+func c11Jobs(r *Rng, n int) []c11Job {
+	var js []c11Job
+	for i := 0; i < n; i++ {
+		j := c11Job{ty: []int{1, 2, 5}[i%3], challenge: r.Bytes(r.IntN(40))}
+		switch j.ty {
+		case 1:
+			b, _ := group.P384.RandomNonZeroScalar(theRand).MarshalBinary()
+			j.nonces, j.blinds = [][]byte{r.Bytes(32)}, [][]byte{b}
+		case 2:
+			b := r.Bytes(256)
+			b[0] &= 0x3f
+			j.nonces, j.blinds, j.salt = [][]byte{r.Bytes(32)}, [][]byte{b}, r.Bytes(48)
+		default:
+			for k := 0; k < 1+r.IntN(3); k++ {
+				b, _ := group.Ristretto255.RandomNonZeroScalar(theRand).MarshalBinary()
+				j.nonces, j.blinds = append(j.nonces, r.Bytes(32)), append(j.blinds, b)
+			}
+		}
+		js = append(js, j)
+	}
+	return js
+}
+
+func init() {
+	// c11.hist <k> <n>: n issuances created first (every state alive at once), finalized afterwards in another order —
+	// each must give the request and tokens it gives when run alone
+	replayers["c11.hist"] = func(c *Ctx, a []string) string {
+		n, _ := strconv.Atoi(a[1])
+		r := NewRng(c.Seed, "c11.hist"+a[0])
+		reseedRand(c.Seed, "c11.hist"+a[0])
+		w := newC11World(a[0])
+		js := c11Jobs(r, n)
+		want := make([]string, n)
+		for i, j := range js {
+			want[i] = w.alone(j)
+		}
+		ps := make([]c11Pending, n)
+		for i, j := range js {
+			p, err := w.create(j)
+			if err != nil {
+				return fmt.Sprintf("job %d (type %d): create failed in the history", i, j.ty)
+			}
+			ps[i] = p
+		}
+		for _, i := range r.Perm(n) {
+			t, err := ps[i].fin()
+			got := ps[i].req + " " + t
+			if err != nil {
+				got = "err-finalize " + ps[i].req
+			}
+			if got != want[i] {
+				return fmt.Sprintf("job %d (type %d) differs when other requests were created before it was finalized: %s vs alone %s", i, js[i].ty, trunc(got), trunc(want[i]))
+			}
+		}
+		return "same"
+	}
+	// c11.par <k> <n>: the same issuances run from concurrent goroutines (shared token keys, per-call arguments)
+	replayers["c11.par"] = func(c *Ctx, a []string) string {
+		n, _ := strconv.Atoi(a[1])
+		r := NewRng(c.Seed, "c11.par"+a[0])
+		reseedRand(c.Seed, "c11.par"+a[0])
+		w := newC11World(a[0])
+		js := c11Jobs(r, n)
+		want := make([]string, n)
+		for i, j := range js {
+			want[i] = w.alone(j)
+		}
+		// request creation alone, many at once per token type (short calls overlap only when issued back to back)
+		byType := map[int][]int{}
+		for i, j := range js {
+			byType[j.ty] = append(byType[j.ty], i)
+		}
+		for _, ty := range []int{2, 1, 5} {
+			ix := byType[ty]
+			reps := 12
+			reqs := parMap(len(ix)*reps, func(k int) (out string) {
+				defer func() {
+					if e := recover(); e != nil {
+						out = fmt.Sprint("panic: ", e)
+					}
+				}()
+				p, err := w.create(js[ix[k%len(ix)]])
+				if err != nil {
+					return "err-create"
+				}
+				return p.req
+			})
+			for k, q := range reqs {
+				i := ix[k%len(ix)]
+				if !strings.HasPrefix(want[i], q+" ") {
+					return fmt.Sprintf("job %d (type %d): the request differs when created concurrently with others: %s vs alone %s", i, ty, trunc(q), trunc(want[i]))
+				}
+			}
+		}
+		got := parMap(n, func(i int) (out string) {
+			defer func() {
+				if e := recover(); e != nil {
+					out = fmt.Sprint("panic: ", e)
+				}
+			}()
+			return w.alone(js[i])
+		})
+		for i := range js {
+			if got[i] != want[i] {
+				return fmt.Sprintf("job %d (type %d) differs when run concurrently with others: %s vs alone %s", i, js[i].ty, trunc(got[i]), trunc(want[i]))
+			}
+		}
+		return "same"
 	}
 }
 
